@@ -179,7 +179,7 @@ Print Assumptions C14_clause_witnesses.
    request a buffer beyond their limit and never deliver more frames than were sent, for every
    stream; the ConnectionInfo reader of start_accepted requests exactly the announced length before
    any check (class 9, refuted with the 4 GiB witness).  Rows ingested with a date: the writer
-   thread only panics beyond the calendar (class 10) *)
+   thread only panics from the last day of the calendar on (class 10: its next day does not exist) *)
 Theorem C14_frame_len_guard_holds : forall limit fs,
   (snd (read_channel limit fs) <= limit)%N /\ (fst (read_channel limit fs) <= N.of_nat (List.length fs))%N.
 Proof. exact read_channel_bounded. Qed.
@@ -190,8 +190,8 @@ Proof. exact conn_info_requests_len. Qed.
 Print Assumptions C14_conn_info_allocation_refuted.
 
 Theorem C14_ingest_date_outside_known : forall rf md,
-  ingest_outcome rf md = OPanic -> (Z.leb rf md && Z.ltb max_calendar_ms md) = true.
-Proof. exact ingest_panics_only_beyond_calendar. Qed.
+  (Z.leb rf md && Z.leb last_day_start_ms md) = false -> ingest_obs rf md = [0; 1].
+Proof. exact ingest_safe_before_last_day. Qed.
 Print Assumptions C14_ingest_date_outside_known.
 
 Theorem C14_frame_and_date_witnesses :
@@ -200,7 +200,8 @@ Theorem C14_frame_and_date_witnesses :
   known_C14 (CFrames (FFrame 4294967295 0 false) [] [] []) = [9] /\
   run_C14 (CFrames (FFrame 90 90 true) [] [FFrame 45 45 true; FFrame 4294967295 45 false; FFrame 45 45 true] []) = [1; 0; 1; 0; 0; 1] /\
   run_C14 (CIngest 1000 8210266876800000) = [2; 0] /\ known_C14 (CIngest 1000 8210266876800000) = [10] /\
-  run_C14 (CIngest 1000 8210266876799999) = [0; 1] /\ run_C14 (CIngest 1000 (-5)) = [0; 1].
+  run_C14 (CIngest 1000 8210266876799999) = [0; 0] /\ known_C14 (CIngest 1000 8210266790400000) = [10] /\
+  run_C14 (CIngest 1000 8210266790399999) = [0; 1] /\ run_C14 (CIngest 1000 (-5)) = [0; 1].
 Proof. exact frame_witnesses_w. Qed.
 Print Assumptions C14_frame_and_date_witnesses.
 
